@@ -107,6 +107,9 @@ def run_case(case):
             probes["missing_rows_present"] = 1
         bad = (e1.check_layout(ds, spec["n"]) or e1.check_rows(ds, spec, case["p"])
                or e1.check_returned(res_df, nparts, ds, spec))
+        if bad is None and store.conflicts:
+            # invariant during the run: no task touches a file another task is writing
+            bad = ("concurrent-file-access", f"fault-free run: {store.conflicts[:3]}")
         if bad is None:
             # an independent re-read through a fresh, fault-free simulated store
             sim2 = e1.new_sim(seed ^ 0x5EED, case["sim"])
